@@ -67,6 +67,8 @@ func c05World() *ref.World {
 	f.Arr = []int64{4, 6, 8}
 	f.M = map[string]int64{"a": 2, "b": 7}
 	f.SArr = []string{"p", "q"}
+	f.SV = facts.Sub{V: 500, S: "sv"}
+	f.P = &facts.Sub{V: 70, S: "p"}
 	w.Objs["F"] = f
 	w.Objs["K"] = facts.New()
 	return w
@@ -248,6 +250,7 @@ func C05(rep *ev.Reporter, tier string) {
 		}
 		for _, e := range []string{"F.Arr.Len()", "F.SArr.Len()", "F.M.Len()", `StringContains(F.S, "x")`, `StringContains("abc", F.S)`, `StringContains(F.S + "z", "yz")`,
 			"IsZero(F.I)", "IsZero(0)", "IsZero(0.0)", `IsZero("")`, "IsZero(F.S)", "IsZero(F.I - 5)", "IsNil(F.P)", "IsNil(F.PI)",
+			"F.SV.Twice()", "F.P.Twice()", "F.P.Avail()", "F.SV.Twice() + F.P.Twice()", "F.P.Twice() + F.SV.Twice()", "F.P.Avail() + F.SV.Twice()", "F.SV.Twice() * 10 + F.P.Avail()",
 			"Max()", "Min()", "Max() + 1.5", "F.Cat()", `F.Cat() + "z"`, "F.Pick(0)", "F.Pick(1)", "F.Pick(0) + 2", `F.Cat("only")`,
 			"Max(1.5)", "Max(1.5, 2.5)", "Max(2.5, 1.5, F.F)", "Min(1.5, F.F, 0.5)", "Max(F.F, F.F * 3.0)", "Min(-0.0, 0.0)", "Abs(-1.5)", "Abs(F.F - 2.0)",
 			`ContainsStr(F.SArr, "q")`, `ContainsStr(F.SArr, "z")`, `ContainsStr(F.S.Split("y"), "x")`,
